@@ -197,6 +197,15 @@ func TestVerifC07Flv(t *testing.T) {
 	}
 	fams := []*vC07Fam{
 		{name: "flv-dense-tags", dec: "flv.demux", build: vC07FlvDense, cost: "flv.demux"},
+		{name: "flv-big-tag-then-small", dec: "flv.demux", cost: "flv.demux", build: func(n int) []byte {
+			l := n / 2
+			out := []byte{'F', 'L', 'V', 1, 5, 0, 0, 0, 9, 0, 0, 0, 0, 9, byte(l >> 16), byte(l >> 8), byte(l), 0, 0, 0, 0, 0, 0, 0}
+			out = append(out, make([]byte, l+4)...)
+			for len(out)+17 <= n {
+				out = append(out, 8, 0, 0, 2, 0, 0, 0, 0, 0, 0, 0, 0xaf, 1, 0, 0, 0, 13)
+			}
+			return out
+		}},
 		{name: "flv-one-big-tag", dec: "flv.demux", cost: "flv.demux", build: func(n int) []byte {
 			out := []byte{'F', 'L', 'V', 1, 5, 0, 0, 0, 9, 0, 0, 0, 0, 9, byte((n - 28) >> 16), byte((n - 28) >> 8), byte(n - 28), 0, 0, 0, 0, 0, 0, 0}
 			return append(out, make([]byte, n-24)...)
